@@ -7,7 +7,7 @@ CONSTANTS
   FreshPool <- FreshPoolDef
   AutoNames <- AutoNamesDef
   DefVals <- DefValsDef
-  StepPool <- StepPoolDef
+  StepPool <- StepPoolSim
   ExtrasPool = {1}
   MaxAssets = 4
   MaxAssocs = 4
